@@ -4,6 +4,9 @@ import TTModel.Reduce
 import TTModel.Extras
 import TTModel.Reduce2
 import TTModel.Trunc
+import TTModel.Shape
+import TTModel.Heap
+import TTModel.Guard
 import TTModel.Scalar
 /-!
 # Line-protocol driver: one operation per input line, one canonical outcome per output line.
@@ -133,6 +136,37 @@ def dense : PM (List Nat × (List Nat → S)) := do
     arr.getD flat 0
   pure (dims, f)
 
+def showObj (o : Shape.Obj) : String :=
+  let k := if o.isTTM then "M" else "T"
+  s!"obj {k} N {o.N} M {o.M} R {o.R} S {o.shape} C {o.cores}"
+
+def showErr : Shape.Err → String
+  | .RankMismatch => "err RankMismatch"
+  | .InvalidArguments => "err InvalidArguments"
+  | .ShapeMismatch => "err ShapeMismatch"
+  | .IncompatibleTypes => "err IncompatibleTypes"
+  | .NotImplemented => "err NotImplementedError"
+  | .Other => "err Other"
+
+def showObjRes : Except Shape.Err Shape.Obj → String
+  | .ok o => showObj o
+  | .error e => showErr e
+
+/-- object = core shapes, then N, M, R (each length-prefixed), then the is_ttm flag; `shape` is
+    recomputed from the stored M, N the way the implementation prints it -/
+def shapeObj : PM Shape.Obj := do
+  let k ← nat
+  let cs ← many k natList
+  let N ← natList; let M ← natList; let R ← natList
+  let t ← nat
+  let ttm := t == 1
+  pure { cores := cs.toList, N := N, M := M, R := R, shape := Shape.shapeOf ttm M N, isTTM := ttm }
+
+def guardSh : PM Guard.Sh := do
+  let k ← next
+  let N ← natList; let M ← natList
+  pure { isTTM := k == "M", N := N, M := M }
+
 def sameModesB (xs ys : List (Core S)) : Bool :=
   xs.length == ys.length && (xs.zip ys).all (fun p => p.1.m == p.2.m && p.1.n == p.2.n)
 
@@ -208,6 +242,28 @@ def run : PM String := do
       | [c] => if allSummed && c.m == 1 && c.n == 1 && c.r0 == 1 && c.r1 == 1 then pure s!"sc {c.get 0 0 0 0}"
                else pure (showTT false (r.map freeze))
       | _ => pure (showTT false (r.map freeze))
+  | "ctor" => do
+      let k ← nat
+      let cs ← many k natList
+      pure (showObjRes (Shape.fromCores cs.toList))
+  | "setcore" => do
+      let o ← shapeObj; let k ← nat; let sh ← natList
+      pure (showObjRes (Shape.setCore o k sh))
+  | "reducedims" => do
+      let o ← shapeObj; let ex ← natList
+      pure (showObj (Shape.reduceDimsObj o ex))
+  | "guard" => do
+      let op ← next
+      let x ← guardSh; let y ← guardSh
+      let o := if op == "add" || op == "sub" then Guard.guardAddSub x y
+               else if op == "mul" then Guard.guardMul x y
+               else Guard.guardMatmul x y
+      match o with
+      | .ok => pure "ok"
+      | .err e => pure (showErr e)
+  | "heapeffect" => do
+      let name ← next; let t ← nat
+      pure s!"sc {if Heap.writeAllowed name (t == 1) then 1 else 0}"
   | "rankchop" => do
       let k ← nat; let sv ← many k num; let e ← num
       pure s!"sc {Trunc.rankChop (sv.toList.map (·.re)) e.re}"
